@@ -174,6 +174,13 @@ func (pc *propCheck) replayTranslator(o *Obligation, con *Contract) replayResult
 	if !isTr {
 		return replayResult{}
 	}
+	if strings.HasSuffix(con.Pkg, "/cmd/goose") || con.FuncName == "newPackageConfig" || con.FuncName == "(TranslationConfig).TranslatePackages" {
+		if pc.cmdReplay == nil {
+			rr := pc.replayCommand()
+			pc.cmdReplay = &rr
+		}
+		return *pc.cmdReplay
+	}
 	if pc.witnessCache == nil {
 		pc.witnessCache = map[string]witnessOutcome{}
 	}
@@ -211,6 +218,75 @@ func (pc *propCheck) replayTranslator(o *Obligation, con *Contract) replayResult
 			r.Output = out.Output
 			return r
 		}
+	}
+	return r
+}
+
+// replayCommand (C17): run the goose binary built from /repo on a module with
+// one translatable and one untranslatable package and check exit status, file
+// placement, -ignore-errors and compare-before-write.
+func (pc *propCheck) replayCommand() replayResult {
+	r := replayResult{Tried: true, Cmd: "goose built from " + repoDir + " on /verif/witness_cmd/mod (see gvc/witness.go replayCommand)"}
+	bin, berr := pc.buildGoose()
+	if bin == "" {
+		r.Output = berr
+		return r
+	}
+	mod := filepath.Join(verifDir, "witness_cmd", "mod")
+	run := func(out string, args ...string) (int, string) {
+		a := append([]string{"-out", out}, args...)
+		cmd := exec.Command(bin, a...)
+		cmd.Dir = mod
+		cmd.Env = append(os.Environ(), "GOFLAGS=-mod=mod", "GOPROXY=off", "GOSUMDB=off", "GOTOOLCHAIN=local")
+		b, err := cmd.CombinedOutput()
+		code := 0
+		if ee, ok := err.(*exec.ExitError); ok {
+			code = ee.ExitCode()
+		} else if err != nil {
+			code = -1
+		}
+		return code, string(b)
+	}
+	exists := func(p string) bool { _, err := os.Stat(p); return err == nil }
+	fail := func(format string, a ...any) replayResult {
+		r.Confirmed = true
+		r.Detail = fmt.Sprintf(format, a...)
+		return r
+	}
+	out1, _ := os.MkdirTemp(pc.WorkDir, "cmd1-")
+	code, log := run(out1, "./...")
+	goodV := filepath.Join(out1, "example_com", "cmdw", "good.v")
+	badV := filepath.Join(out1, "example_com", "cmdw", "bad.v")
+	if code != 1 {
+		return fail("goose ./... on a module with one untranslatable package exits %d, expected 1\n%s", code, firstLine(log))
+	}
+	if !exists(goodV) {
+		return fail("goose ./... did not write %s for the package that translated", goodV)
+	}
+	if exists(badV) {
+		return fail("goose ./... wrote %s for a package with a conversion error (no -ignore-errors)", badV)
+	}
+	out2, _ := os.MkdirTemp(pc.WorkDir, "cmd2-")
+	code, _ = run(out2, "-ignore-errors", "./...")
+	if code != 1 {
+		return fail("goose -ignore-errors ./... exits %d although a package failed, expected 1", code)
+	}
+	if b, err := os.ReadFile(filepath.Join(out2, "example_com", "cmdw", "bad.v")); err != nil || !strings.Contains(string(b), "Definition Ok") || strings.Contains(string(b), "Definition Bad") {
+		return fail("goose -ignore-errors: bad.v should contain exactly the declarations that translated (Ok, not Bad); err=%v", err)
+	}
+	code, _ = run(out1, "./good")
+	if code != 0 {
+		return fail("goose ./good exits %d, expected 0", code)
+	}
+	old := time.Date(2001, 2, 3, 4, 5, 6, 0, time.UTC)
+	os.Chtimes(goodV, old, old)
+	code, _ = run(out1, "./good")
+	if st, err := os.Stat(goodV); err != nil || !st.ModTime().Equal(old) {
+		return fail("goose ./good rewrote %s although its content did not change (mtime moved)", goodV)
+	}
+	code, log = run(out1, "./nonexistent-pattern-xyz")
+	if code == 0 {
+		return fail("goose on a pattern matching nothing exits 0")
 	}
 	return r
 }
